@@ -314,6 +314,36 @@ def case_genai(rng, choice=None):
     job.output_token_count = SourceValue(2 * tokens * u.dimensionless)
     if not close_q(phys(job.request_duration), (2 * tokens * (alpha * active + beta), (1, 0, 0, 0, 0))):
         vs.append(("genai-not-refreshed:output_token_count", "request duration not refreshed"))
+    # … the job re-pointed to a second model installed on the same server, whose model is then changed: the derived
+    # parameters follow the service the job points to, at every step
+    def rules_hold(service, n_tokens, where):
+        act = phys(service.active_params)[0]
+        al, be = phys(service.gpu_latency_alpha)[0], phys(service.gpu_latency_beta)[0]
+        if not close_q(phys(job.request_duration), (n_tokens * (al * act + be), (1, 0, 0, 0, 0))):
+            vs.append(("genai-not-refreshed:" + where, f"request duration ≠ tokens × (alpha × active params + beta) of the job's service after {where}"))
+            return False
+        if not close_q(phys(job.compute_needed), (phys(service.llm_memory_factor)[0] * act * phys(service.nb_of_bits_per_parameter)[0] / phys(gpu.ram_per_gpu)[0], (0, 0, 0, 0, 1))):
+            vs.append(("genai-not-refreshed:" + where, f"GPUs needed ≠ factor × active params × bits / RAM per GPU of the job's service after {where}"))
+            return False
+        return True
+    if not vs:
+        others = [m for m in allm if m != (provider, name)]
+        try:
+            p2, n2 = rng.choice(others)
+            svc2 = GenAIModel.from_defaults("genai2", server=gpu, provider=SourceObject(p2), model_name=SourceObject(n2))
+            job.service = svc2
+            if rules_hold(svc2, 2 * tokens, "service"):
+                same_provider = [m for m in others if m[0] == p2 and m[1] != n2]
+                if same_provider:
+                    n3 = rng.choice(same_provider)[1]
+                    svc2.model_name = SourceObject(n3)
+                    if rules_hold(svc2, 2 * tokens, "model_name"):
+                        job.output_token_count = SourceValue(3 * tokens * u.dimensionless)
+                        rules_hold(svc2, 3 * tokens, "output_token_count-after-re-pointing")
+        except Exception as e:  # noqa
+            en = err_enum(e)
+            if en not in ("capacity",):
+                vs.append((f"genai-edit-raises:{en}", f"re-pointing the job / changing the model raises: {str(e)[:160]}"))
     return vs, {"builder": "genai", "choice": [provider, name], "spec_for_model": genai_spec(system, job, svc, gpu, starts)}
 
 
